@@ -211,8 +211,8 @@ def exhaustive_cases(ctx, maxlen):
                     yield {"nrx": nrx, "ncols": ncols, "dt": str(dt), "t0": str(t0), "seed": 1, "ops": ops}
 
 
-def random_case(rng, maxlen):
-    nrx, ncols = rng.randint(1, 2), rng.randint(2, 4)
+def random_case(rng, maxlen, shape=None):
+    nrx, ncols = shape if shape is not None else (rng.randint(1, 2), rng.randint(2, 4))
     dt = rng.choice(DTS)
     t0 = Fraction(rng.randint(-4, 8), 4)
     nq, ops, now = 1, [], {0: t0 + dt}
@@ -280,6 +280,13 @@ def run(ctx):
     rnd = [random_case(ctx.rng, 40 if ctx.quick() else 200) for _ in range(n)]
     for i in range(0, len(rnd), 500):
         process(ctx, rnd[i:i + 500])
+    # beyond the property's own range of shapes (the model and its theorems hold for every shape): queues with as many or more
+    # reactions than slots, from a generator of their own so that the histories above stay what they were
+    from common import SplitMix64
+    wide_rng = SplitMix64(ctx.seed * 7919 + 20)
+    wide = [random_case(wide_rng, 40, shape=sh) for sh in ((3, 2), (4, 2), (5, 3), (6, 4), (3, 3), (4, 3)) for _ in range(20 if ctx.quick() else 200)]
+    process(ctx, wide)
+    ctx.count("histories_with_as_many_or_more_reactions_than_slots", len(wide))
 
 
 def replay(ctx, obj):
